@@ -26,7 +26,7 @@ and the final fault-free repeat may assign yet another value under yet another l
                             every task holding (`writeAndRun_consistentF'`);
 * `setValue_recoverF_multiS`, `setValue_recoverF_multi` — the recovery theorems with function tasks;
 * `setValue_recover_multiS`,  `setValue_recover_multi`  — the expression-task corollaries (`Consistent` / `Scope`);
-* `setValue_recoverF_multi_decided` — all hypotheses decided by the driver's Boolean tests.
+* `setValue_recoverF_multi_decided` — all hypotheses as Boolean tests (sound; the driver evaluates `scope` / `scope_f` per line, not `consistentFB`).
 -/
 namespace Manager
 open Store Push Index
@@ -276,7 +276,7 @@ theorem setValue_recover_multi (sched sched' : Sched) (s : MState) (p : Path) (l
 
 /-! ### decided -/
 
-/-- **recovery after any number of attempts, all hypotheses decided by the driver's Boolean tests** -/
+/-- **recovery after any number of attempts, all hypotheses as Boolean tests** -/
 theorem setValue_recoverF_multi_decided (sched sched' : Sched) (s : MState) (p : Path) (l : List (Option Nat × Val))
     (v : Val) (hi : MInv s) (hnodef : lookDef s.defs p = none) (hsc : scopeFB s p = true)
     (hv : validSchedule s.idx (chainR p) (sched (findTaskids s.idx (chainR p))) = true)
